@@ -1,7 +1,7 @@
 (* C06: quaternion QR glue around the real QR oracle. *)
 From Coq Require Import Arith Lia Ring ZArith List.
 From QV Require Import CRing Sums Quat Mat QMat NumpySem.
-From QVT Require Import Embed Glue.
+From QVT Require Import Embed Glue QRGram.
 From QVM Require Import QsvdGlue.
 Import ListNotations.
 
@@ -30,6 +30,18 @@ Proof. intros H. rewrite <- (qmm_assoc C m m m p Qm (qherm Qm) A2), H. apply (qm
 Theorem C06_R_recomputed m n (A Qm R' : qmat) :
   meq n n (qmm m (qherm Qm) Qm) qmid -> meq m n A (qmm n Qm R') -> meq n n (qmm m (qherm Qm) A) R'.
 Proof. intros HQ HA. rewrite HA, <- (qmm_assoc C n m n n (qherm Qm) Qm R'), HQ. apply (qmm_id_l C n n R'). Qed.
+(* what any QR factorisation preserves: A = Q R with Q^H Q = I gives A^H A = R^H R (R is a Cholesky-type factor of the Gram matrix),
+   ||A||_F = ||R||_F, and column j of R has the norm of column j of A *)
+Theorem C06_gram_of_A_is_gram_of_R m k n (A Qm Rm : qmat) :
+  meq k k (qmm m (qherm Qm) Qm) qmid -> meq m n A (qmm k Qm Rm) -> meq n n (qmm m (qherm A) A) (qmm k (qherm Rm) Rm).
+Proof. exact (qr_gram C m k n A Qm Rm). Qed.
+Theorem C06_frobenius_norm_of_R m k n (A Qm Rm : qmat) :
+  meq k k (qmm m (qherm Qm) Qm) qmid -> meq m n A (qmm k Qm Rm) -> frob2 m n A = frob2 k n Rm.
+Proof. exact (qr_frobenius C m k n A Qm Rm). Qed.
+Theorem C06_column_norms_of_R m k n (A Qm Rm : qmat) :
+  meq k k (qmm m (qherm Qm) Qm) qmid -> meq m n A (qmm k Qm Rm) ->
+  forall j, j < n -> sumR m (fun i => qnorm2 (A i j)) = sumR k (fun i => qnorm2 (Rm i j)).
+Proof. exact (qr_column_norms C m k n A Qm Rm). Qed.
 End P.
 
 (* the QR contract alone does not give structure: A = 0 (2x2), Q_r = P (rows 1 and 4 exchanged), R_r = 0
@@ -85,3 +97,6 @@ Print Assumptions C06_gen_wide_reconstructs.
 Print Assumptions C06_gen_tall_reconstructs.
 Print Assumptions C06_R_recomputed.
 Print Assumptions C06_rank_deficient_oracle_refuted.
+Print Assumptions C06_gram_of_A_is_gram_of_R.
+Print Assumptions C06_frobenius_norm_of_R.
+Print Assumptions C06_column_norms_of_R.
